@@ -5,7 +5,8 @@ harness/cmd/genlists (ops contains unique set unionl intersectl unionm intersect
 from vlib.props import c13
 
 PLUGINS = ["contains", "unique", "set", "union", "intersect", "filter", "takewhile", "all", "any"]
-OPS = {"contains", "unique", "set", "unionl", "intersectl", "unionm", "intersectm", "filter", "takewhile", "all", "any"}
+OPS = {"contains", "unique", "set", "unionl", "intersectl", "unionm", "intersectm", "filter", "takewhile", "all", "any",
+       "containseq", "uniqueeq", "seteq", "unioneq", "intersecteq"}
 
 RULE = ("27 element types (==-comparable and not: basics incl. +0/-0 floats, named basics, comparable struct, pointers to structs "
         "incl. recursive and imported, slices, struct with pointers, named floats with -0/+0 inside non-comparable elements ([]NF, *NF, *SNF), slice elements that are views of one backing array) and 9 key types x the boundary-biased list pool of C13 (nil, "
@@ -14,7 +15,7 @@ RULE = ("27 element types (==-comparable and not: basics incl. +0/-0 floats, nam
         "ordered list pairs and on all ordered pairs of key sets (nil, empty, singletons, both insertion orders, +0 vs -0 keys, the "
         "same map twice); filter / takewhile / all / any with scripted predicates (all 2^n scripts for n <= 3, else all-true, "
         "all-false, alternating, late first false, exhausted, random) and the call log in the answer; distinct = distinct op lines "
-        "whose containers hold >= 2 elements in total; every answer of an op that returns a slice carries an alias flag (result shares the "
+        "whose containers hold >= 2 elements in total; consistency ops (containseq, uniqueeq, seteq, unioneq, intersecteq) decide the clauses relative to the EMITTED Equal on the emitted functions themselves over float / complex / named-float elements and structs holding floats, NaN included; every answer of an op that returns a slice carries an alias flag (result shares the "
         "backing array of an input / fresh) next to the input as observed after the call")
 
 def run(rep):
